@@ -95,7 +95,9 @@ PROP = Prop(
     rule=("TLC enumerates Series/frames of <=3 (thorough 4) rows with repeated rows and repeated index labels, every head and "
           "tail <= len and the sample positions pandas itself draws for (n, random_state), and proves SubsampleIsSubframe "
           "(verdict = verdict on the explicitly selected rows, whole object returned) and SelectAllIsNoOption. Every run is "
-          "replayed with the real head/tail/sample/random_state arguments. Non-trivial = an option is given; distinct = "
+          "replayed with the real head/tail/sample/random_state arguments; the Series slice also has an index component with "
+          "unique=True (shown the selected rows only). FrameRows.tla does the same at DataFrameSchema level on pandas and polars "
+          "(head, tail, a sample of all rows) under every index / column labelling. Non-trivial = an option is given; distinct = "
           "distinct (length, options, predicted verdict, unique or repeated labels)."),
     assumptions=["sampled positions are an environment input obtained from pandas' own sample(); each worker re-checks them"],
     invariants=["SubsampleIsSubframe", "SelectAllIsNoOption", "LazyEagerAgree"],
